@@ -207,7 +207,60 @@ def name_class(name: str) -> str:
     return "plain"
 
 
+def judge_swap(ctx: core.Ctx, case: dict[str, Any]) -> None:
+    """History on one loader: a name is served while it is an ordinary file inside the root; the file is then replaced by a link that leaves
+    the root (or a directory on the way is); the same loader is asked again. Whatever it remembered, it does not follow the link out."""
+    cfg = CONFIGS[case["config"]]
+    T = SB["T"]
+    root = os.path.join(T, "root1")
+    victim = os.path.join(root, case["victim"])
+    backup = victim + ".verif-backup"
+    loader = make_loader(cfg)
+    env = Environment(loader=loader)
+    name = case["name"]
+    get = (lambda: drv.call_async(env.get_template_async, name)) if case.get("async") else (lambda: drv.call(env.get_template, name))
+    first = get()
+    os.rename(victim, backup)
+    try:
+        os.symlink(case["target"].replace("<T>", T), victim)
+        second = get()
+        via_tag = drv.call(env.from_string("{% include '" + name + "' %}").render) if "'" not in name else None
+    finally:
+        try:
+            os.unlink(victim)
+        except OSError:
+            pass
+        os.rename(backup, victim)
+    ctx.count("swap_histories")
+    ctx.evaluations += 1
+    outside = {m for m, p in SB["marker_path"].items() if not any(below(p, r) for r in roots_of(cfg))}
+    for what, o in (("second request", second), ("include tag", via_tag)):
+        if o is None or not o.ok:
+            continue
+        text = o.value if isinstance(o.value, str) else str(getattr(o.value, "source", ""))
+        hit = [m for m in outside if m in text]
+        if hit and cfg.get("rs"):
+            ctx.violation(f"{cfg['cls']}:symlink:followed-after-the-name-was-served-as-a-file", f"{case['config']}: {name!r} was served while an ordinary file, then replaced by a link to {case['target']!r}; the {what} on the same loader returned the content of the outside file {hit}")
+            return
+    ctx.ok((case["config"], name, case["target"], case.get("async")), nontrivial=first.ok)
+
+
+def swap_cases():
+    for cfgname, cfg in CONFIGS.items():
+        if cfg["cls"] not in ("fs", "cfs"):
+            continue
+        for victim, name, target in (("a.liquid", "a.liquid", "../outside/secret.liquid"), ("a.liquid", "a.liquid", "<T>/outside/secret.liquid"), ("sub/b.liquid", "sub/b.liquid", "../../outside/sub/b.liquid"),
+                                     ("sub", "sub/b.liquid", "../outside/sub"), ("a.liquid", "a", "../outside/a.liquid"), ("sub", "sub/b", "<T>/outside/sub")):
+            if (name in ("a", "sub/b")) != bool(cfg["ext"]):
+                continue
+            for is_async in (False, True):
+                yield {"kind": "swap", "config": cfgname, "victim": victim, "name": name, "target": target, "async": is_async}
+
+
 def judge(ctx: core.Ctx, case: dict[str, Any]) -> None:
+    if case.get("kind") == "swap":
+        judge_swap(ctx, case)
+        return
     cfgname = case["config"]
     cfg = CONFIGS[cfgname]
     T = SB["T"]
@@ -341,6 +394,7 @@ def cases(ctx: core.Ctx):
     rng = ctx.rng("cases")
     cfgs = list(CONFIGS)
     if ctx.shard == 0:
+        yield from swap_cases()
         for c in cfgs:
             for n in BASIC:
                 yield {"config": c, "name": n.replace("<S>", "<S>"), "surrogate": "<S>" in n}
